@@ -73,6 +73,11 @@ m('c14-unique-tokens-cache-on-document', 'C14', 'kernpy/core/document.py',
   "        if getattr(self, '_unique_cache', None) is not None:\n            return self._unique_cache\n        computed_categories = TokenCategory.valid(include=filter_by_categories)\n        traversal = TokensTraversal(True, computed_categories)\n        self.tree.dfs_iterative(traversal)\n        self._unique_cache = traversal.tokens\n        return traversal.tokens",
   'needs: two get_unique_tokens calls with DIFFERENT category filters on one document (private memo ignores the filter)')
 
+m('c14-all-tokens-memo-hands-out-its-own-list', 'C14', 'kernpy/core/document.py',
+  "        computed_categories = TokenCategory.valid(include=filter_by_categories)\n        traversal = TokensTraversal(False, computed_categories)\n        self.tree.dfs_iterative(traversal)\n        return traversal.tokens",
+  "        computed_categories = TokenCategory.valid(include=filter_by_categories)\n        memo = self.__dict__.setdefault('_all_tokens_memo', {})\n        key = frozenset(computed_categories)\n        if key not in memo:\n            traversal = TokensTraversal(False, computed_categories)\n            self.tree.dfs_iterative(traversal)\n            memo[key] = traversal.tokens\n        return memo[key]",
+  'needs: the caller edits the list a query returned (clear/append), then the same query again')
+
 # ------------------------------------------------------------------ C15
 m('c15-revert-clone', 'C15', 'kernpy/core/document.py',
   "        tree = MultistageTree()\n        tree.root = link(self.tree.root)\n        tree.stages = [[link(node) for node in stage] for stage in self.tree.stages]\n\n        result = Document(tree)",
